@@ -1532,3 +1532,44 @@ Proof.
   pose proof (seq_agrees_core (q_bg c) (q_tab c) (q_remeasure c) (q_steps c) _ (bg_screen_WF (q_bg c) _ _ Hc Hr) H) as H1.
   rewrite screen_diff_bg in H1. exact H1.
 Qed.
+
+(* ------------------------------------------------------------------ measuring a line segment
+   (Wrap's "total"): tab expansion and the measuring method in force *)
+
+Lemma zsum_acc (l : list Z) : forall a, fold_left Z.add l a = a + zsum l.
+Proof.
+  unfold zsum. induction l as [|x t IH]; intros a; cbn [fold_left]; [lia|].
+  rewrite (IH (a + x)), (IH (0 + x)). lia.
+Qed.
+
+Lemma zsum_cons x l : zsum (x :: l) = x + zsum l.
+Proof. unfold zsum at 1. cbn [fold_left]. rewrite zsum_acc. lia. Qed.
+
+Lemma zsum_app a b : zsum (a ++ b) = zsum a + zsum b.
+Proof. induction a as [|x t IH]; cbn [app]; [reflexivity|]. rewrite !zsum_cons, IH. lia. Qed.
+
+(* the width of a line segment as Wrap computes it ("total") is the sum over the EXPANDED
+   characters under the measuring in force -- a tab counts as eight blanks, whatever width
+   the segmenter attached to the tab cluster *)
+Lemma wrap_total_expanded measure remeasure (cls : list (text * Z)) :
+  zsum (map wd (map (measured measure remeasure) (characters cls))) =
+  zsum (map (cluster_total measure remeasure) cls).
+Proof.
+  induction cls as [|cl t IH]; [reflexivity|].
+  change (map (cluster_total measure remeasure) (cl :: t)) with (cluster_total measure remeasure cl :: map (cluster_total measure remeasure) t).
+  rewrite zsum_cons, <- IH.
+  unfold characters. cbn [flat_map]. rewrite !map_app, zsum_app.
+  f_equal. unfold cluster_total. cbv beta.
+  match goal with |- context [if ?b then repeat _ _ else _] => set (tb := b) end.
+  change (zlist_eqb (fst cl) [9]) with tb. destruct tb.
+  - cbn [repeat map]. unfold measured; cbn [wd gr]. rewrite !zsum_cons. unfold zsum; cbn [fold_left]. lia.
+  - cbn [map]. unfold measured; cbn [wd gr]. rewrite zsum_cons. unfold zsum; cbn [fold_left]. lia.
+Qed.
+
+(* without re-measuring (unicodeCore and explicitWidth both set) a tab adds exactly 8 *)
+Lemma wrap_total_tab measure (w : Z) (cls : list (text * Z)) :
+  zsum (map wd (map (measured measure false) (characters (([9], w) :: cls)))) =
+  8 + zsum (map wd (map (measured measure false) (characters cls))).
+Proof.
+  rewrite !wrap_total_expanded. cbn [map]. rewrite zsum_cons. f_equal.
+Qed.
